@@ -675,6 +675,40 @@ def rule_rva_origin(ctx):
 
 
 # ---------------------------------------------------------------------------------- pos-append
+HARD_WRITERS = ("thread_list_stream::write", "sections::mappings::write", "app_memory::write", "memory_list_stream::write", "exception_stream::write",
+                "systeminfo_stream::write", "memory_info_list_stream::write")
+
+
+def rule_hard_streams(ctx, R, only=None):
+    """(registered under the properties that need the stream to BE there: C04/C05/C06/C20 thread list, C05 exception, C07 memory, C08
+    modules, C18 system and memory info — not under C01, for which an unused directory entry is still a sound dump.)
+    The streams a reader cannot do without are all-or-nothing.  generate_dump returns Ok only on paths where each
+    of the core stream writers (thread list, modules, application memory, memory list, exception, system info, memory info) returned Ok;
+    none of their failures is survived (demoted to a soft error or a default directory entry), which would hand out a "successful" dump
+    without threads, or with an exception record that points at nothing."""
+    b = ctx.body(R, "linux::minidump_writer::MinidumpWriter::generate_dump")
+    if b is None:
+        return
+    o = Origin(b)
+    oks = sorted(Exits(b).ok_blocks())
+    n = 0
+    for w in HARD_WRITERS:
+        if only and w not in only:
+            continue
+        calls = list(b.calls(lambda c: (c.short or "").endswith(w)))
+        if len(calls) != 1:
+            ctx.violated(R, ("anchor", w), b.where(0), "anchor lost: %d calls of %s in generate_dump (expected 1)" % (len(calls), w))
+            continue
+        n += 1
+        good = bool(oks)
+        for ob in oks:
+            dnf = conditions(b, ob, origin=o, relevant=lambda a: a[0] == "discr" and any(q[0] == "call" and q[1].endswith(w) for q in walk(a)) and not any(q[0] == "call" and q[1].endswith("write_to_file") for q in walk(a)))
+            good = good and bool(dnf) and all(any(v == 0 for (a, v) in c) for c in dnf)
+        ctx.check(good, R, ("hard", w.split("::")[-2]), b.where(calls[0][0]), "generate_dump succeeds only if %s returned Ok" % w,
+                  "generate_dump can return Ok although %s failed: its error is survived, and the dump reports success without that stream (and with whatever depended on it unset)" % w)
+    ctx.floor(R, "core stream writers in generate_dump", n, len(only) if only else len(HARD_WRITERS))
+
+
 def rule_pos_append(ctx, R="C01/pos-append"):
     b = ctx.body(R, "linux::sections::thread_list_stream::fill_thread_stack")
     if b is None:
